@@ -342,19 +342,22 @@ theorem C05_gate (d : Defects) (s : St) (st f : Int) (w : Bool) (sys : Int) (dcd
 example : (step .code ⟨.notSelected, false, false, 7, []⟩ (.rxData 99 1 true 12 false)).2 = [.tx 7 12 0 4] := by decide
 
 /-- **SELECTED delivers exactly once.**  A data message received while SELECTED produces exactly one output: it is put on the queue of
-the requester waiting on its system bytes if there is one, otherwise handed to the application (`message_received`); no frame is
-written and the connection state stays SELECTED.  Holds for every stream/function, W-bit and body. -/
+the requester waiting on its system bytes if it is a reply (even function code) and there is such a requester, otherwise handed to the
+application (`message_received`) — in particular a primary (odd function) whose system bytes collide with an open local transaction goes to
+the application; no frame is written and the connection state stays SELECTED.  Holds for every stream/function, W-bit and body. -/
 theorem C05_selected_delivers (d : Defects) (s : St) (st f : Int) (w : Bool) (sys : Int) (dcd : Bool) (hc : s.conn = .selected) :
-    (step d s (.rxData st f w sys dcd)).2 = [if isOpen s sys then Out.deliverWaiter sys else Out.deliverApp sys]
+    (step d s (.rxData st f w sys dcd)).2 = [if f % 2 = 0 ∧ isOpen s sys = true then Out.deliverWaiter sys else Out.deliverApp sys]
     ∧ (step d s (.rxData st f w sys dcd)).1.conn = .selected := by
   obtain ⟨c, dc, ac, ctr, opn⟩ := s
   simp only at hc; subst hc
   simp only [step, handleData]
-  by_cases ho : isOpen ⟨.selected, dc, ac, ctr, opn⟩ sys = true <;> simp [ho, closeSys]
+  by_cases ho : f % 2 = 0 ∧ isOpen ⟨.selected, dc, ac, ctr, opn⟩ sys = true <;> simp [ho, closeSys]
 
-/-- non-vacuity: SELECTED with a requester waiting on 1001: that message goes to the requester, any other to the application -/
-example : (step .code ⟨.selected, false, true, 1001, [(1001, .select)]⟩ (.rxData 1 1 true 1001 true)).2 = [.deliverWaiter 1001]
-    ∧ (step .code ⟨.selected, false, true, 1001, [(1001, .select)]⟩ (.rxData 1 1 true 5 true)).2 = [.deliverApp 5] := by decide
+/-- non-vacuity: SELECTED with a requester waiting on 1001: a reply (S1F2) with these system bytes goes to the requester, a primary (S1F1)
+with the same system bytes and any message with other system bytes go to the application -/
+example : (step .code ⟨.selected, false, true, 1001, [(1001, .select)]⟩ (.rxData 1 2 false 1001 true)).2 = [.deliverWaiter 1001]
+    ∧ (step .code ⟨.selected, false, true, 1001, [(1001, .select)]⟩ (.rxData 1 1 true 1001 true)).2 = [.deliverApp 1001]
+    ∧ (step .code ⟨.selected, false, true, 1001, [(1001, .select)]⟩ (.rxData 1 2 false 5 true)).2 = [.deliverApp 5] := by decide
 
 /-- **The three statements at every point of every history** (from any start state, for both variants). -/
 theorem C05_history_responses (d : Defects) (s0 : St) (is : List In) :
@@ -365,7 +368,7 @@ theorem C05_history_responses (d : Defects) (s0 : St) (is : List In) :
     ∧ (∀ st f w sys dcd, s.conn ≠ .selected → delivers (step d s (.rxData st f w sys dcd)).2 = []
         ∧ (s.conn = .notSelected → (step d s (.rxData st f w sys dcd)).2 = [.tx SType.rejectReq.code sys Gen.HsmsSType.DATA_MESSAGE 4]))
     ∧ (∀ st f w sys dcd, s.conn = .selected →
-        (step d s (.rxData st f w sys dcd)).2 = [if isOpen s sys then Out.deliverWaiter sys else Out.deliverApp sys]) := by
+        (step d s (.rxData st f w sys dcd)).2 = [if f % 2 = 0 ∧ isOpen s sys = true then Out.deliverWaiter sys else Out.deliverApp sys]) := by
   intro s
   refine ⟨fun st sys status h1 h2 => C05_one_response d s st sys status h1 h2, ?_, ?_⟩
   · intro st f w sys dcd h
